@@ -767,6 +767,55 @@ def c03(rep, tier):
                             labm = field_chain(lab)[1]
                             okk = labm[-1:] == ['offset'] and labm[-2] == member and member == {'JMP': 'jmp', 'JMPC': 'jmpc'}.get(opn)
                 kinds[opn] = okk
+    if not kinds:
+        # pointer form: a JumpOffset* selected by the opcode (in backpatch itself or in a helper that returns it), read for the label
+        # and written with labels[label] - position
+        def case_targets(fn_, subject_is_param=False):
+            out = {}
+            for st in walk_stmts(fn_['body']):
+                if st['k'] != 'switch' or 'op' not in show(st['c']).split('.')[-1:][0] and not show(st['c']).endswith('op'):
+                    continue
+                for case in st['cases']:
+                    labs = [l.get('name') for l in case['labels'] if isinstance(l, dict)]
+                    for x in [y for s2 in case['s'] for y in walk_all_exprs(s2)]:
+                        if x.get('k') == 'un' and x.get('op') == '&':
+                            ch = field_chain(x['e'])[1]
+                            if ch[-1:] == ['offset'] and len(ch) >= 2:
+                                for l in labs:
+                                    out[l] = ch[-2]
+            return out
+        ptrs = {}
+        for st in walk_stmts(bpf['body']):
+            if st['k'] == 'decl':
+                for v in st['vars']:
+                    if (v.get('cty') or '').endswith('*') and v.get('init') is not None:
+                        o = strip_casts(v['init'])
+                        if o.get('k') == 'call' and o.get('callee_in_repo'):
+                            hs = [y for y in m.all_fns() if y['q'] == o.get('callee') and y.get('body') is not None]
+                            if len(hs) == 1:
+                                ct = case_targets(hs[0])
+                                if ct:
+                                    ptrs[v['d']] = ct
+                                    rep.analysed(hs[0])
+        own = case_targets(bpf)
+        if own:
+            for st in walk_stmts(bpf['body']):
+                if st['k'] == 'decl':
+                    for v in st['vars']:
+                        if (v.get('cty') or '').endswith('*') and any(x.get('k') == 'assign' and strip_casts(x['l']).get('d') == v['d'] for x in walk_all_exprs(bpf['body'])):
+                            ptrs[v['d']] = own
+        for pd, ct in ptrs.items():
+            for x in walk_all_exprs(bpf['body']):
+                if x.get('k') == 'assign' and strip_casts(x['l']).get('k') == 'un' and strip_casts(x['l']).get('op') == '*' and strip_casts(strip_casts(x['l'])['e']).get('d') == pd:
+                    r = strip_casts(x['r'])
+                    okf = False
+                    if r.get('k') == 'bin' and r['op'] == '-':
+                        tgt = m.origin(bpf, r['l'])
+                        if is_call(tgt, '::operator[]') and field_chain(tgt['obj'])[1][-1:] == ['labels']:
+                            lab = strip_casts(m.origin(bpf, tgt['args'][0]))
+                            okf = lab is not None and lab.get('k') == 'un' and lab.get('op') == '*' and strip_casts(lab['e']).get('d') == pd
+                    for opn, member in ct.items():
+                        kinds[opn] = okf and member == {'JMP': 'jmp', 'JMPC': 'jmpc'}.get(opn)
     for opn in ('JMP', 'JMPC'):
         if opn not in kinds:
             G.unknown('backpatch: %s' % opn, 'the rewriting of %s offsets has a shape that is not recognised' % opn, W(m, bpf))
